@@ -37,3 +37,6 @@ CHECKS['C15'] = (_SYMX + '; reference chain maintained from the chooser answers,
 CHECKS['C12'] = (_SYMX + '; BFS characterisation under all deterministic rules; trajectory masses vs Reed-Frost kernels as polynomial identities in symbolic p',
                  'discrete_SIR: for every contact digraph and recovery-test outcome on the graphs of the bound, infection generation = BFS distance, one infectious step, conservation, horizon; basic/percolation-based SIR and basic SIS: total probability of every node-state trajectory equals the product of Reed-Frost / discrete-SIS kernels for all p; percolate_network: one draw per edge, kept iff draw < p',
                  'floats as reals; graphs <= 3 (4) nodes; SIS <= 2 (3) steps', 'DESIGN.md 6/C12')
+CHECKS['C17'] = (_SYMX + '; rule-vs-edge obligations with symbolic xi/zeta/delays decided by z3; estimator outputs against an independent component reference on every digraph of the bound',
+                 'builders: edge u->v iff the supplied rule holds for all symbolic rule inputs; estimators: on every digraph with <= 3 (4) nodes the output is the in/out-component fraction of a largest SCC and within [0,1]; estimate_SIR_prob_size = largest-component fraction for every outcome of the edge draws',
+                 'floats as reals; parts (b)-(d) are exhaustive engine-driven enumeration with a small solver share (stated in DESIGN section 8)', 'DESIGN.md 6/C17')
